@@ -252,8 +252,18 @@ class SimDevice(object):
             # the device reports the failure BEFORE acknowledging this WRTE (F5 ordering)
             st.early_done = True
             rec = sync_rec(b"FAIL", len(pr[1]), data=pr[1])
-            st.wrote.append(rec)
-            self.send(A_WRTE, st.remote, st.local, rec)
+            split = self.cfg.get("wrte_split")
+            pieces = [rec]
+            if split:
+                pieces, i2, k2 = [], 0, 0
+                while i2 < len(rec):
+                    n2 = max(1, split[k2 % len(split)])
+                    pieces.append(rec[i2:i2 + n2])
+                    i2 += n2
+                    k2 += 1
+            for piece in pieces:        # all of them overtake the OKAY of the host's WRTE
+                st.wrote.append(piece)
+                self.send(A_WRTE, st.remote, st.local, piece)
             st.waiting_okay = True
             st.failed = True
         late_okay = self.cfg.get("okay_after_reply") and not getattr(st, "failed", False)
